@@ -8,8 +8,26 @@ import (
 // Value constructors and structural comparators per field kind, used by the generated
 // per-type setters and comparators (gen.go, produced from the current struct definitions).
 
+// vpSymLeaves: when false the constructors below use fixed characters instead of symbolic ones
+// (used by the everything-populated harnesses, where one symbol per leaf would multiply paths).
+var vpSymLeaves = true
+
+func vpLeafAlnum() byte {
+	if vpSymLeaves {
+		return vpAlnum()
+	}
+	return 'x'
+}
+
+func vpLeafLower() byte {
+	if vpSymLeaves {
+		return vpLower()
+	}
+	return 'y'
+}
+
 func vpMkIRI(tag byte) IRI {
-	return IRI("https://h.ex/" + string([]byte{tag, vpAlnum()}))
+	return IRI("https://h.ex/" + string([]byte{tag, vpLeafAlnum()}))
 }
 
 func vpMk_IRI(shape int, tag byte) IRI { return vpMkIRI(tag) }
@@ -20,11 +38,13 @@ func vpMk_Type(shape int, tag byte) ActivityVocabularyType { return NoteType }
 func vpEq_Type(a, b ActivityVocabularyType) bool           { return a == b }
 func vpZero_Type(a ActivityVocabularyType) bool            { return len(a) == 0 }
 
-func vpMk_Mime(shape int, tag byte) MimeType { return MimeType("text/" + string([]byte{vpLower(), vpLower()})) }
+func vpMk_Mime(shape int, tag byte) MimeType {
+	return MimeType("text/" + string([]byte{vpLeafLower(), vpLeafLower()}))
+}
 func vpEq_Mime(a, b MimeType) bool           { return a == b }
 func vpZero_Mime(a MimeType) bool            { return len(a) == 0 }
 
-func vpText2() Content { return Content{vpLower(), vpLower()} }
+func vpText2() Content { return Content{vpLeafLower(), vpLeafLower()} }
 
 // language values: 0 single untagged, 1 single tagged, 2 two languages
 func vpMk_NLV(shape int, tag byte) NaturalLanguageValues {
@@ -51,7 +71,8 @@ func vpEq_NLV(a, b NaturalLanguageValues) bool {
 }
 func vpZero_NLV(a NaturalLanguageValues) bool { return len(a) == 0 }
 
-// items: 0 IRI, 1 object with id, 2 object without id, 3 link, 4 actor, 5 list of two IRIs, 6 activity with object IRI
+// items: 0 IRI, 1 object with id, 2 object without id, 3 link, 4 actor, 5 list of two IRIs, 6 activity with object IRI,
+// 7 one-element list holding an IRI, 8 one-element list holding an object
 func vpMk_Item(shape int, tag byte) Item {
 	switch shape {
 	case 0:
@@ -66,8 +87,12 @@ func vpMk_Item(shape int, tag byte) Item {
 		return &Actor{ID: vpMkIRI(tag), Type: PersonType}
 	case 5:
 		return ItemCollection{vpMkIRI(tag), vpMkIRI(tag + 1)}
-	default:
+	case 6:
 		return &Activity{ID: vpMkIRI(tag), Type: LikeType, Object: vpMkIRI(tag + 1)}
+	case 7:
+		return ItemCollection{vpMkIRI(tag)}
+	default:
+		return ItemCollection{&Object{ID: vpMkIRI(tag), Type: NoteType, Summary: vpMk_NLV(0, tag)}}
 	}
 }
 func vpEq_Item(a, b Item) bool { return vpEqItem(a, b) }
@@ -124,11 +149,19 @@ func vpMk_Source(shape int, tag byte) Source {
 func vpEq_Source(a, b Source) bool { return a.MediaType == b.MediaType && vpEq_NLV(a.Content, b.Content) }
 func vpZero_Source(a Source) bool  { return len(a.MediaType) == 0 && len(a.Content) == 0 }
 
-func vpMk_Uint(shape int, tag byte) uint { return uint(vpInt(1, 99)) }
+func vpMk_Uint(shape int, tag byte) uint {
+	if !vpSymLeaves {
+		return 7
+	}
+	return uint(vpInt(1, 99))
+}
 func vpEq_Uint(a, b uint) bool           { return a == b }
 func vpZero_Uint(a uint) bool            { return a == 0 }
 
 func vpMk_Int(shape int, tag byte) int64 {
+	if !vpSymLeaves {
+		return 7
+	}
 	if shape == 1 {
 		return -vpInt(1, 99)
 	}
@@ -143,7 +176,7 @@ func vpMk_Float(shape int, tag byte) float64 { return vpFloats[shape%len(vpFloat
 func vpEq_Float(a, b float64) bool           { return a == b }
 func vpZero_Float(a float64) bool            { return a == 0 }
 
-func vpMk_String(shape int, tag byte) string { return string([]byte{vpLower(), vpLower()}) }
+func vpMk_String(shape int, tag byte) string { return string([]byte{vpLeafLower(), vpLeafLower()}) }
 func vpEq_String(a, b string) bool           { return a == b }
 func vpZero_String(a string) bool            { return len(a) == 0 }
 
@@ -151,12 +184,12 @@ func vpMk_Bool(shape int, tag byte) bool { return true }
 func vpEq_Bool(a, b bool) bool           { return a == b }
 func vpZero_Bool(a bool) bool            { return !a }
 
-func vpMk_LangRef(shape int, tag byte) LangRef { return LangRef([]byte{vpLower(), vpLower()}) }
+func vpMk_LangRef(shape int, tag byte) LangRef { return LangRef([]byte{vpLeafLower(), vpLeafLower()}) }
 func vpEq_LangRef(a, b LangRef) bool           { return a == b }
 func vpZero_LangRef(a LangRef) bool            { return len(a) == 0 }
 
 func vpMk_PublicKey(shape int, tag byte) PublicKey {
-	return PublicKey{ID: vpMkIRI(tag), Owner: vpMkIRI(tag + 1), PublicKeyPem: "-----BEGIN " + string([]byte{vpLower()}) + "-----"}
+	return PublicKey{ID: vpMkIRI(tag), Owner: vpMkIRI(tag + 1), PublicKeyPem: "-----BEGIN " + string([]byte{vpLeafLower()}) + "-----"}
 }
 func vpEq_PublicKey(a, b PublicKey) bool {
 	return a.ID == b.ID && a.Owner == b.Owner && a.PublicKeyPem == b.PublicKeyPem
@@ -182,7 +215,7 @@ func vpShapes(kind string) int {
 	case "NLV":
 		return 3
 	case "Item":
-		return 7
+		return 9
 	case "Items":
 		return 3
 	case "Time", "Duration", "Float":
